@@ -68,6 +68,7 @@ fn main() {
         "configs" => { finish(&out, gen::config_histories(seed, n, arg("--maxops", "25").parse().unwrap())); }
         "events" => { finish(&out, gen::event_histories(seed, n, arg("--maxops", "25").parse().unwrap())); }
         "readonly" => { finish(&out, gen::readonly_histories(seed, n, arg("--maxops", "8").parse().unwrap(), arg("--crash", "0") == "1")); }
+        "backends" => { finish(&out, gen::backend_sequences(seed, n)); }
         "repl" => {
             let maxlen: u64 = arg("--maxlen", "20").parse().unwrap();
             let mode = match arg("--mode", "log").as_str() { "crash" => gen::Mode::Crash, "torn" => gen::Mode::Torn, _ => gen::Mode::Log };
